@@ -586,6 +586,47 @@ def structure_roles(ctx):
     return roles
 
 
+def opts_frame(ctx, rule="B1", fields=("StreamOrder",)):
+    """Frame rule for the options builder: a method of StreamOpts that takes
+    `self` and returns StreamOpts leaves every field it does not set as the
+    caller had it: each selected field of the result comes from the same field
+    of `self`, from another argument, or from a constant written in that
+    method -- never from another function's value (`..Self::default()`)."""
+    fb, fl = ctx.fb, ctx.model.flow
+    adt = fb.adts.get("stream_opts::StreamOpts")
+    if not adt:
+        ctx.unverifiable(rule, "opts", "-", "StreamOpts not found")
+        return
+    flds = adt["variants"][0]["fields"]
+    sel = [i for i, f in enumerate(flds) if any(x in f["ty"]["s"] for x in fields)]
+    n = 0
+    for b in fb.prod_bodies():
+        sig = fb.fns.get(b.id)
+        if not sig or not (sig.get("impl_self", "") or "").startswith("stream_opts::StreamOpts"):
+            continue
+        if not sig["output"]["s"].startswith("stream_opts::StreamOpts") or not sig["inputs"]:
+            continue
+        if not sig["inputs"][0]["s"].startswith("stream_opts::StreamOpts"):
+            continue
+        for i in sel:
+            n += 1
+            bad = []
+            for s_ in fl.sources_local(b, 0, (i,)):
+                if s_.kind == "param" and s_[1] == b.id and ((s_[2] == 1 and tuple(s_[3][:1]) == (i,)) or s_[2] != 1):
+                    continue
+                if s_.kind == "agg" and s_[1] == b.id:
+                    continue
+                if s_.kind == "const" and s_[3] == b.id:
+                    continue
+                bad.append(fmt_src(s_))
+            ctx.check(not bad, rule, "frame|%s|%s" % (sig["name"], flds[i]["name"]), ctx.model.where(b),
+                      "StreamOpts::%s keeps or sets `%s` from its own arguments/constants: options chosen by earlier builder calls survive" % (sig["name"], flds[i]["name"]),
+                      "StreamOpts::%s replaces `%s` by a value from elsewhere (%s): an option chosen by an earlier builder call is silently reset" % (
+                          sig["name"], flds[i]["name"], bad[:3]))
+    if n < len(sel) or not sel:
+        ctx.unverifiable(rule, "floor", "-", "no StreamOpts builder method with the selected fields %s found" % (fields,))
+
+
 def S1_opts(ctx, rule):
     """StreamOpts::rev stores Reverse; default stores Forward."""
     fb = ctx.fb
@@ -1149,7 +1190,7 @@ def user_awaits(ctx, body):
     return out
 
 
-def S4(ctx, rule="S4"):
+def S4(ctx, rule="S4", liveness=False):
     m, fb, fl = ctx.model, ctx.fb, ctx.model.flow
     n_item = 0
     n_drop = 0
@@ -1172,6 +1213,11 @@ def S4(ctx, rule="S4"):
             ctx.check(bool(ok_tx and ok_id), rule, "fnref-drop", where,
                       "FnRef::drop sends its own fn_id on its own done-sender",
                       "FnRef::drop sends %s on %s" % ([fmt_src(x) for x in idsrc], [fmt_src(x) for x in srcs]))
+            drop_sends = [s2["bb"] for s2 in m.send_sites() if s2["body"].id == b.id]
+            if liveness:
+                ctx.check(b.all_paths_pass(0, drop_sends, b.exits()), rule, "fnref-drop-always", where,
+                          "every path through FnRef::drop reaches the done-send: no condition (panicking thread, flag, id) lets a reference go away unreported",
+                          "some path through FnRef::drop returns without the done-send: a reference dropped on that path is never reported and its successors are never released")
             continue
         if "DONE" not in s["roles"]:
             continue
